@@ -5,7 +5,8 @@ LocalNetwork update cascade.  Streams to be called from tools/props/c04.py:
     PROPS_FILES  = PROPS_FILES + c04_full.PROPS_FILES
     LEAN_TARGETS = LEAN_TARGETS + c04_full.LEAN_TARGETS
     DRIVERS      = DRIVERS + c04_full.DRIVERS
-    def translate(ctx): c04_full.translate(ctx)          # regenerates lean/Gama/Gen/NetCascade.lean
+    def translate(ctx): c04_full.translate(ctx)          # regenerates lean/Gama/Gen/NetCascade.lean (tools/gen/c04_cascade.py: cascade table,
+                                                         # hand-over site, set_algorithm, MoveToFront capacity) and Gen/IcgsError.lean (c20_icgs.py)
     at the end of correspond(ctx, corr):
         c04_full.run_full_state(ctx, corr)      # chol/gso/svd: state after every call + numerics + fresh oracle
         c04_full.run_adj_state(ctx, corr)       # Adj: same, with set_algorithm switches
@@ -17,6 +18,10 @@ Every stream runs the real object (harness/c04_full.cpp, harness/c04_net.cpp; pr
 friend probe) and the Lean state machine (lean/Driver/FullState.lean, lean/Driver/NetState.lean) on the
 same histories: the discrete state after EVERY call must agree exactly, answers agree numerically
 (through the history-free models) and every answer is compared with a fresh object (oracle).
+Since round 6/9 the chol / gso / svd machines of both entries (solver, Adj) run on `Full.inputOf alg p` computed from the numeric
+problem (Adj: the homogenised one) and an `info` line of the real object is accepted only if it agrees (FInfo.agrees);
+`set_algorithm <name>` of the network stream compares the dynamic class of `least_squares` with `classOf Gen.setAlg name`.
+Theorems: Props/C04Full.lean, C04Pending.lean (negative regions), C04Net.lean (network-level denotation; not executed by a driver).
 """
 import os
 import random
